@@ -66,7 +66,12 @@ def scaling_funcdef(law):
 
 def container_env(dom, tps, cpus, read, base, law, ram=None):
     env = A.Env(dom)
-    env.consts["DISK_SCAN_GB_SEC"] = X.module_const("eudoxia/utils/consts.py", "DISK_SCAN_GB_SEC")
+    for n in X.load("eudoxia/utils/consts.py").body:       # every literal module constant
+        if isinstance(n, ast.Assign) and len(n.targets) == 1 and isinstance(n.targets[0], ast.Name):
+            try:
+                env.consts[n.targets[0].id] = ast.literal_eval(n.value)
+            except Exception:
+                pass
     env.names["ticks_per_second"] = tps
     env.names["self.ticks_per_second"] = tps
     tl = X.assign_value(X.func(X.load(CONT), "Container.__init__"), "self.tick_length_secs")
@@ -86,16 +91,38 @@ def container_env(dom, tps, cpus, read, base, law, ram=None):
 
 
 def generator_ticks():
-    """(io_expr, cpu_expr) from Container._tick_generator (inlined)."""
+    """(io_expr, cpu_expr): the expressions Container._tick_generator uses as the number of I/O and
+    CPU ticks of a segment, with local names inlined.  Located by role, trying in order: the pair
+    appended to / assigned as the per-segment tick counts, assignments to io_ticks / cpu_ticks, and
+    any  wrap(X / self.tick_length_secs)  conversion."""
     g = X.func(X.load(CONT), "Container._tick_generator")
+    defs = X.local_defs(g)
+    cands = []
+    for n in ast.walk(g):
+        if isinstance(n, ast.Call) and isinstance(n.func, ast.Attribute) and n.func.attr == "append" and n.args \
+                and isinstance(n.args[0], ast.Tuple) and len(n.args[0].elts) == 2:
+            cands.append(tuple(X.inline(e, defs) for e in n.args[0].elts))
+    for (a, b) in cands:
+        if X.mentions(a, "get_io_seconds") and X.mentions(b, "get_cpu_time"):
+            return a, b
     io = cpu = None
+    for name in ("io_ticks", "cpu_ticks"):
+        vals = X.assigns(g, name)
+        for v in vals:
+            inl = X.inline(v, defs)
+            if name == "io_ticks" and X.mentions(inl, "get_io_seconds"):
+                io = io or inl
+            if name == "cpu_ticks" and X.mentions(inl, "get_cpu_time"):
+                cpu = cpu or inl
+    if io is not None and cpu is not None:
+        return io, cpu
     for full, inl in X.tick_conversions(g):
         if X.mentions(inl, "get_io_seconds") and not X.mentions(inl, "get_cpu_time"):
             io = io or inl
         elif X.mentions(inl, "get_cpu_time") and not X.mentions(inl, "get_io_seconds"):
             cpu = cpu or inl
     if io is None or cpu is None:
-        raise X.NotFound("I/O / CPU tick conversions in Container._tick_generator")
+        raise X.NotFound("I/O / CPU tick counts in Container._tick_generator")
     return io, cpu
 
 
@@ -117,7 +144,10 @@ def observe_ticks(read, base, law, cpus, tps, mem=1.0, alloc=1e9):
     n = 0
     limit = 5_000_000
     while n < limit:
-        res = pool.run_one_tick([], [a] if n == 0 else [])
+        try:
+            res = pool.run_one_tick([], [a] if n == 0 else [])
+        except Exception:
+            return None, None, trace
         n += 1
         if res:
             return n, res[0].failed(), trace
